@@ -112,6 +112,15 @@ class Fn:
                 return f"(max {self.expr(args[0], env)} {self.expr(args[1], env)})"
             if f in ("min", "np.minimum") and len(args) == 2:
                 return f"(min {self.expr(args[0], env)} {self.expr(args[1], env)})"
+            binops = {"np.divide": "/", "np.true_divide": "/", "np.multiply": "*", "np.add": "+", "np.subtract": "-"}
+            if f in binops and len(args) == 2 and not e.keywords:
+                return f"({self.expr(args[0], env)} {binops[f]} {self.expr(args[1], env)})"
+            if f == "np.square" and len(args) == 1:
+                return f"({self.expr(args[0], env)} ^ 2)"
+            if f == "np.negative" and len(args) == 1:
+                return f"(-{self.expr(args[0], env)})"
+            if f == "np.where" and len(args) == 3:
+                return f"(if {self.cond(args[0], env)} then {self.expr(args[1], env)} else {self.expr(args[2], env)})"
             if f == "len" and len(args) == 1 and isinstance(args[0], ast.Name):
                 return self.param(args[0].id + "_len")
             if f in ("math.ceil", "np.ceil") and len(args) == 1:
